@@ -102,6 +102,94 @@ def relaxed_history(c, requires):
     return out
 
 
+# ---- per-point record history (what `history:records-of-exported-points` demands) as POSTCONDITIONS of the writer primitives
+ADD_OUT = HDF + ".__add_hdf_output_dataset"
+CREATE_IO = HDF + ".__create_hdf_input_output"
+APPEND_OUT = HDF + ".__append_hdf_output"
+
+
+def ios(s):
+    return H.int_of_str(s)
+
+
+def _listing_facts(c):
+    """After __add_hdf_output_dataset: the positions nn0 .. nn0+m-1 of k/<i> hold names of `output_values`, each at its own POS; the earlier positions keep name
+    and POS; the array datasets of v/arr_<i> are named by positions of the listing."""
+    i = c.old.index_dataset
+    outs = c.old.output_values
+    mem = outs.member
+    F0, F1 = W.node_of(c, "old"), W.node_of(c, "new")
+    nn0 = W.old_nn(c.old.keys_group.ds, sidx(i))
+    m = outs.n
+    j, s = z3.Int("j!lf"), z3.Const("s!lf", StrS)
+    return [
+        ("listing:new-positions-hold-their-own-names", FA([j], z3.Implies(z3.And(nn0 <= j, j < nn0 + m), z3.And(mem[F1.name(i, j)], F1.pos(i, F1.name(i, j)) == j)), F1.name(i, j))),
+        ("listing:old-positions-kept", FA([j], z3.Implies(z3.And(0 <= j, j < nn0), z3.And(F1.name(i, j) == F0.name(i, j), F1.pos(i, F1.name(i, j)) == F0.pos(i, F0.name(i, j)))), F1.name(i, j))),
+        ("listing:length", F1.nn(i) == nn0 + m),
+        ("listing:array-datasets-are-positions", FA([s], z3.Implies(z3.And(F1.has_agrp(i), F1.amem(i)[s]), z3.And(s == sidx(ios(s)), 0 <= ios(s), ios(s) < nn0 + m)), F1.amem(i)[s])),
+    ]
+
+
+class _Listing:
+    variant = "c12"
+    prop = ("C11",)
+
+    def ensures(self, c):
+        return super().ensures(c) + _listing_facts(c)
+
+
+@register
+class AddHdfOutputDatasetListing(_Listing, W.AddHdfOutputDataset):
+    targets = (ADD_OUT,)
+
+
+@register
+class AddHdfOutputDatasetNoMapListing(_Listing, W.AddHdfOutputDatasetNoMap):
+    targets = (ADD_OUT,)
+    variant = "no-index-map-c12"
+
+
+@register
+class CreateHdfInputOutputListing(_Listing, W.CreateHdfInputOutput):
+    targets = (CREATE_IO,)
+    callee_variants = {ADD_OUT: "c12"}
+
+
+def _record_facts(F: Node, i, outs_has, label="record:"):
+    """record_pre, clause by clause: the names listed for point i are names of the point (each at its own POS), array datasets are named by listed positions."""
+    j, s = z3.Int("j!rf"), z3.Const("s!rf", StrS)
+    nn = F.nn(i)
+    return [(label + "listing-length", nn >= 0),
+            (label + "listed-names-are-names-of-the-point", FA([j], z3.Implies(z3.And(0 <= j, j < nn), z3.And(outs_has(F.name(i, j)), F.pos(i, F.name(i, j)) == j + 1)), F.name(i, j))),
+            (label + "array-datasets-are-positions", FA([s], z3.Implies(z3.And(F.has_agrp(i), F.amem(i)[s]), z3.And(s == sidx(ios(s)), 0 <= ios(s), ios(s) < nn)), F.amem(i)[s]))]
+
+
+def records_of_exported_points(F: Node, D, label="records:"):
+    """The record of every exported point only lists names of that point (record_pre of C11, clause by clause): to_file's per-point history precondition, here as
+    loop invariant and postcondition, so that the chain of backup exports is inductive."""
+    i = z3.Int("i!re")
+    out = []
+    for l, f in _record_facts(F, i, lambda nm: W.o_member(point_names(D, i))[nm], label=""):
+        out.append((label + l, FA([i], z3.Implies(z3.And(0 <= i, i < D.n, F.Xm[sidx(i)]), f), sidx(i))))
+    return out
+
+
+@register
+class AppendHdfOutputRecord(W.AppendHdfOutput):
+    """__append_hdf_output re-establishes its own history precondition: afterwards every name listed in k/<i> is a name of the point (at its own POS) and the array
+    datasets are named by listed positions."""
+
+    targets = (APPEND_OUT,)
+    variant = "c12"
+    prop = ("C11",)
+    callee_variants = {ADD_OUT: "c12"}
+
+    def ensures(self, c):
+        F1 = W.node_of(c, "new")
+        outs = c.old.output_values
+        return super().ensures(c) + _record_facts(F1, c.old.index_dataset, lambda nm: outs.has(nm))
+
+
 @register
 class ToFileClosed(ToFile):
     """HDFDatabase.to_file as in C11 (index-level exported view, both branches), re-verified with
@@ -114,12 +202,16 @@ class ToFileClosed(ToFile):
     prop = ("C11",)
     c12 = True
     modifies = ToFile.modifies + ("ghost:h5_nopen", "ghost:h5_file_exists")
+    callee_variants = {CREATE_IO: "c12", APPEND_OUT: "c12"}
+    loops = {n: LoopSpec(anchor=sp.anchor, inv=(lambda base: lambda c, k: base(c, k) + records_of_exported_points(W._cur_node(c), W._tf_views(c)[0]))(sp.inv),
+                         modifies=sp.modifies, local_types=sp.local_types) for n, sp in ToFile.loops.items()}
 
     def requires(self, c):
         return relaxed_history(c, super().requires(c)) + not_open(c)
 
     def ensures(self, c):
-        return super().ensures(c) + closed(c) + [("file-exists", exists(c, "new"))]
+        D, _, _ = W._tf_views(c)
+        return super().ensures(c) + records_of_exported_points(Node.of_ghost(c, "new"), D, "records-history:") + closed(c) + [("file-exists", exists(c, "new"))]
 
 
 @register
@@ -652,8 +744,160 @@ class BackupInvariantLemmas(Contract):
         st = _ExportState(D0, P0, F, P1=PE, F1=F1)
         post = z3.And(*[f for _, f in WRITER.ensures(st)])
         for l, f in export_ready(D0, PE, F1):
-            out.append((f"export-restores:{l}", z3.Implies(z3.And(facts, post, records_history(F1, D0)), f)))
+            out.append((f"export-restores:{l}", z3.Implies(z3.And(facts, R0, post, records_history(F1, D0)), f)))  # (R0: the export starts from R and does not touch the database)
         i = z3.Int("i!bl")
         out.append(("prefix:the-file-lists-exactly-the-recorded-points-in-order",
                     z3.Implies(z3.And(facts, post), z3.And(F1.Xn == D0.n, z3.ForAll([i], z3.Implies(z3.And(0 <= i, i < D0.n), z3.And(F1.Xm[sidx(i)], key_of(F1.xval(i)) == D0.keys[i])))))))
         return out
+
+
+# ---------------------------------------------------------------------------- C11: the final export of BaseScenario.execute
+from pyvc.values import TDict, TOpt  # noqa: E402
+
+BMP = "gemseo.core._base_monitored_process.BaseMonitoredProcess"
+SCNX = SCN + "#c12x"
+schema(SCNX, {"formulation": TObj(FORM, schema_key=FORM + "#c12"), "_BaseScenario__history_backup_is_set": TBool, "_opt_hist_backup_path": TStr,
+              "clear_history_before_execute": TBool, "name": TStr})
+RUN_MODIFIES = ("self.formulation.optimization_problem.database", "self.formulation.optimization_problem.database._Database__hdf_database",
+                "self.formulation.optimization_problem.evaluation_counter", "ghost:calllog", "ghost:calllog_n") + TO_FILE_GHOSTS
+FINAL_REGION = "database-empty-before-the-run"
+
+
+class _AtExit:
+    """The exit state of a context presented as an entry state (to state a precondition-shaped predicate about the state a function leaves)."""
+
+    def __init__(self, c, keep_entry_ghosts=False):
+        self._c, self._keep = c, keep_entry_ghosts
+        self.st = getattr(c, "st", None)
+
+    @property
+    def old(self):
+        return self._c.new
+
+    new = old
+
+    def old_ghost(self, name, sort):
+        return self._c.old_ghost(name, sort) if self._keep else self._c.new_ghost(name, sort)
+
+    def new_ghost(self, name, sort):
+        return self._c.new_ghost(name, sort)
+
+
+def grown(D0, D1):
+    """D1 holds the points of D0 at the same places (a run only adds points and names)."""
+    i = z3.Int("i!gr")
+    return z3.And(D1.n >= D0.n, FA([i], z3.Implies(z3.And(0 <= i, i < D0.n), D1.keys[i] == D0.keys[i]), D1.keys[i]))
+
+
+@register
+class ScenarioSetAlgorithm(Contract):
+    targets = (SCN + ".set_algorithm",)
+    prop = ("C11",)
+    self_schema = SCNX
+    params = {"algo_settings_model": TOpt(TVal), "algo_settings": TDict(TStr, TVal)}
+    trusted = True
+    description = "assumed: only records the algorithm settings of the scenario (touches neither the problem, the database, the backup flags nor the file)"
+
+
+@register
+class ScenarioRun(Contract):
+    """ASSUMED summary of the monitored run (driver execution through ProblemFunction / Database.store, C01/C03): the database only grows; the listeners are
+    notified by Database.store as proved in store@c12; by BackupInvariantLemmas (initially / store-preserves / export-restores) the state the run leaves is
+    export-ready whenever it started export-ready: R(file, database, pending buffer) = the preconditions of the backup callback; no handle is left open."""
+
+    targets = (BMP + "._execute_monitored",)
+    prop = ("C11",)
+    self_schema = SCNX
+    modifies = RUN_MODIFIES
+    trusted = True
+    description = ("assumed summary of the run: the database only grows (points keep their places), the backup flags / path of the scenario are kept, and the export "
+                   "preconditions R of the backup callback are preserved (BackupInvariantLemmas over store@c12 and to_file@c12; the per-point record history is "
+                   "the unproved hypothesis named there); no file handle is left open")
+
+    def requires(self, c):
+        return _writer_pre(c, _scn_db, TRUE)
+
+    def ensures(self, c):
+        D0, D1 = _scn_db(c.old)._Database__data, _scn_db(c.new)._Database__data
+        return [("database-only-grows", grown(D0, D1))] + [("export-ready:" + l, f) for l, f in _writer_pre(_AtExit(c), _scn_db, TRUE)]
+
+
+@register
+class DatabaseGetXVect(Contract):
+    targets = (DB + ".get_x_vect",)
+    prop = ("C11",)
+    self_schema = DB12
+    params = {"iteration": TInt}
+    returns = TVal
+    trusted = True
+    description = "assumed: returns the input value of the given iteration (1 <= iteration <= len(database): no exception); reads only"
+
+    def requires(self, c):
+        return [("iteration-in-range", z3.And(1 <= c.old.iteration, c.old.iteration <= c.old.self._Database__data.n))]
+
+
+@register
+class ScenarioExecuteFinalExport(_Delegates):
+    """BaseScenario.execute with a history backup: "the last call to the functions may not trigger the callback ... this ensures that the callback is called
+    after the last iteration" (source comment) - when the run recorded new points, the backup file lists the database at the end (exported view of to_file: every
+    point with as many names as it has outputs) and nothing is left pending.  KNOWN FINDING (region database-empty-before-the-run): the guard `0 < n_x < n_x_a`
+    skips the final export when the database was EMPTY before the run - the normal case."""
+
+    targets = (SCN + ".execute",)
+    self_schema = SCNX
+    params = {"algo_settings_model": TOpt(TVal), "algo_settings": TDict(TStr, TVal)}
+    modifies = RUN_MODIFIES
+    callee_variants = dict(_Delegates.callee_variants)
+
+    def requires(self, c):
+        # the multi-run mode of MDOScenarioAdapter (clear_history_before_execute) is not a backup configuration
+        return _writer_pre(c, _scn_db, TRUE) + [("no-clearing-of-the-history", z3.Not(c.old.self.clear_history_before_execute))]
+
+    def finding_regions(self, c):
+        return {FINAL_REGION: _scn_db(c.old)._Database__data.n == 0}
+
+    def ensures(self, c):
+        D0, D1 = _scn_db(c.old)._Database__data, _scn_db(c.new)._Database__data
+        new_points = z3.And(c.old.self._BaseScenario__history_backup_is_set, D1.n > D0.n)
+        # (stated for the database as the run LEFT it; the handle clause compares with the handles open at entry)
+        return [("final-export:" + l, z3.Implies(new_points, f)) for l, f in _writer_post(_AtExit(c, keep_entry_ghosts=True), _scn_db) if l in ("exported-view:x-has-n-entries", "exported-view:every-point-lists-all-its-names", "pending-buffer-emptied", "file-handle-closed")]
+
+
+# ---------------------------------------------------------------------------- C11: Database.from_hdf (restart side: a database rebuilt from the backup)
+DS = A + "design_space.DesignSpace"
+
+
+@register
+class DesignSpaceFromFile(Contract):
+    targets = (DS + ".from_file",)
+    prop = ("C11",)
+    params = {"file_path": TStr, "hdf_node_path": TStr}
+    returns = TObj(DS, schema_key=DS + "#c11")
+    raises = {"KeyError": None}
+    raises_exact = False
+    trusted = True
+    description = ("assumed here (DesignSpace.from_hdf is verified in contracts/c11_design_space_hdf.py): reads only the design_space group of the node (KeyError when it "
+                   "is absent); touches neither the groups x, k, v nor any database; its own file handle is closed when it returns")
+
+
+@register
+class DatabaseFromHdf(_Delegates):
+    """Database.from_hdf builds a NEW database (constructor model: empty, no listener) and updates it from the file: by update_from_file@c12 it holds exactly the N
+    points of the file, x/<i> being the i-th one, in index order; the file is untouched and its handle closed; a missing design-space group (KeyError) only means
+    a default input space."""
+
+    targets = (DB + ".from_hdf",)
+    self_class = DB
+    params = {"file_path": TStr, "name": TStr, "hdf_node_path": TStr, "log": TBool}
+    returns = DBT12
+    modifies = ("ghost:calllog", "ghost:calllog_n", "ghost:h5_nopen")
+
+    def requires(self, c):
+        F0 = Node.of_ghost(c, "old")
+        return W.reader_file_wf(F0) + not_open(c)
+
+    def ensures(self, c):
+        F0 = Node.of_ghost(c, "old")
+        D = c.result._Database__data
+        return [("points-of-the-file-in-file-order", database_lists_the_file(F0, D)), ("db-wf", db_wf(D)),
+                ("no-listener", z3.And(c.result._Database__store_listeners.n == 0, c.result._Database__new_iter_listeners.n == 0))] + closed(c)
